@@ -320,7 +320,7 @@ Section Env.
 
   Theorem main_redirects cfg f loc :
     fs_main canonical file_mode dir_entries can_open cfg f = RRedirect loc ->
-    loc = f ++ [slash] /\ last f 0 <> slash /\
+    loc = safe_location f /\ last f 0 <> slash /\
     exists path, check_in_document_root canonical cfg f = Some path /\ has_bit (file_mode (cstr path)) S_IFDIR = true.
   Proof.
     unfold fs_main. destruct (check_in_document_root canonical cfg f) as [path|] eqn:E1. 2: discriminate.
